@@ -224,6 +224,30 @@ def tail_markers(core, tail=True, out=None):
     return out
 
 
+def evaluated_syms(core, out=None):
+    """every symbol of a core form that is evaluated as a variable reference (operator or operand)"""
+    out = out if out is not None else []
+    if isinstance(core, Sym):
+        out.append(str(core))
+        return out
+    if isinstance(core, tuple) or not isinstance(core, list) or not core:
+        return out
+    head = core[0]
+    if head == "quote":
+        return out
+    if head in ("lambda", "λ"):
+        for e in core[2:]:
+            evaluated_syms(e, out)
+        return out
+    if head in ("set!", "define"):
+        for e in core[2:]:
+            evaluated_syms(e, out)
+        return out
+    for e in (core[1:] if head == "if" else core):
+        evaluated_syms(e, out)
+    return out
+
+
 def S(x):
     return read_all(x)[0]
 
@@ -252,6 +276,10 @@ INSTANCES = [
     ("case", "(case k ((a b) %N2 (%T1)) ((c) (%T2)) (else %N3 (%T3)))"),
     ("case without else", "(case k ((a) (%T1)) ((b) %N2 (%T2)))"),
     ("case on a compound key", "(case (%N1 x) ((a) (%T1)) (else (%T2)))"),
+    ("case on a compound key, several clauses", "(case (%N1 x) ((a) (%T1)) ((b) %N2 (%T2)) ((c) => %N3) (else => %N4))"),
+    ("case ending in a => clause", "(case k ((a) (%T1)) ((c) => %N3))"),
+    ("case of one => clause", "(case (%N1 x) ((c) => %N3))"),
+    ("cond ending in a => clause", "(cond (%N1 (%T1)) (%N2 => %N3))"),
     ("nested: cond in let in when", "(when %N1 (let ((x %N2)) (cond (%N3 (%T1)) (else (or %N4 (%T2))))))"),
 ]
 
@@ -333,7 +361,12 @@ def r01f(ctx, rep, rule="R01f"):
         lost = sorted(set(want) - set(seen))
         # `or`/cond-without-body legitimately mention a test twice only through a temporary, never the marker itself
         dup = sorted({m for m in seen if seen.count(m) > 1})
-        if bad_n:
+        kw = sorted({a for a in evaluated_syms(core) if a in ("=>", "else")})
+        if kw:
+            rep.fail(rule, key, "in %s the expansion evaluates the syntactic keyword %s as a variable: a rule whose "
+                     "pattern variable swallows the keyword matches before the rule that names it" % (
+                         text, ", ".join(kw)), [path], detail={"expansion": repr(core)[:600]})
+        elif bad_n:
             rep.fail(rule, key, "in %s the non-tail expression %s ends up in tail position of the expansion: it is "
                      "compiled as a tail call and its continuation (the rest of the form) is abandoned" % (
                          text, ", ".join(bad_n)), [path], detail={"expansion": repr(core)[:600]})
